@@ -44,13 +44,44 @@ func Load() error {
 		return err
 	}
 	var f struct {
-		Vector []Entry `json:"vector"`
+		Vector []Entry        `json:"vector"`
+		Bounds map[string]int `json:"bounds"`
 	}
 	if err := json.Unmarshal(data, &f); err != nil {
 		return err
 	}
 	SetVector(f.Vector)
+	bounds = f.Bounds
 	return nil
+}
+
+var bounds map[string]int
+
+// LoadBounds reads only the bound parameters from the VERIF_VECTOR file.
+func LoadBounds() {
+	p := os.Getenv("VERIF_VECTOR")
+	if p == "" {
+		return
+	}
+	data, err := os.ReadFile(p)
+	if err != nil {
+		return
+	}
+	var f struct {
+		Bounds map[string]int `json:"bounds"`
+	}
+	if json.Unmarshal(data, &f) == nil {
+		bounds = f.Bounds
+	}
+}
+
+// Bound returns the value of a named bound parameter of the current tier, or
+// def when the tier does not set it. (intrinsic)
+func Bound(name string, def int) int {
+	if v, ok := bounds[name]; ok {
+		return v
+	}
+	return def
 }
 
 // SetVector installs a vector and resets the run state.
@@ -131,6 +162,20 @@ func NondetBytes(n int) []byte {
 func NondetBig(maxBytes int) *big.Int {
 	v := NondetNat()
 	Assume(v.Cmp(new(big.Int).Lsh(big.NewInt(1), uint(8*maxBytes))) < 0)
+	return v
+}
+
+// NondetBigExact returns an arbitrary integer of exactly n bytes
+// (256^(n-1) <= v < 256^n; n = 0 gives 0). (intrinsic: the engine remembers
+// the byte length so that encoding the value does not fork)
+func NondetBigExact(n int) *big.Int {
+	v := NondetNat()
+	if n == 0 {
+		Assume(v.Sign() == 0)
+		return v
+	}
+	Assume(v.Cmp(new(big.Int).Lsh(big.NewInt(1), uint(8*(n-1)))) >= 0)
+	Assume(v.Cmp(new(big.Int).Lsh(big.NewInt(1), uint(8*n))) < 0)
 	return v
 }
 
